@@ -1408,6 +1408,15 @@ func (s *Translator) buildTailProjection() error {
 					}
 				}
 
+				// Grouping keys that reference no binding are not part of nonAggregateExprs
+				if len(nonAggregateExprs) == 0 {
+					if ordinals, err := constantGroupingKeyOrdinals(projection); err != nil {
+						return err
+					} else {
+						nonAggregateExprs = ordinals
+					}
+				}
+
 				// Add non-aggregate expressions to GROUP BY
 				singlePartQuerySelect.GroupBy = nonAggregateExprs
 			}
